@@ -123,6 +123,9 @@ def PyVal.len : PyVal → Except String Int
   | .str s => .ok s.length
   | _ => .error "TypeError"
 
+/-- `s.ljust(n)`: padded with blanks to at least `n` characters -/
+def ljust (s : Bytes) (n : Int) : Bytes := s ++ List.replicate (n.toNat - s.length) 32
+
 /-- `a // b` on Python ints -/
 def floorDiv (a b : Int) : Except String Int :=
   if b = 0 then .error "ZeroDivisionError" else .ok (Int.fdiv a b)
